@@ -830,7 +830,8 @@ def direct_connect_outputs(block=None):
     wirevectors_to_remove = set()
 
     for net in block.logic:
-        if net.op == '@':
+        if net.op in '@r':
+            # a register cannot be replaced by the Output it feeds
             continue
 
         dest_wire = net.dests[0]
